@@ -426,3 +426,4 @@ Section C12.
     (N.eqb t T_ITER || N.eqb t T_LIST || N.eqb t T_TUPLE) = true -> first_err vs = Some c ->
     force_elems S (VT t vs) s = (Err c true, s, []).
   Proof. intros Ht Hf. unfold force_elems, elements_of. rewrite Ht, Hf. reflexivity. Qed.
+End C12.
